@@ -13,6 +13,8 @@ pub async fn run(seed: u64) -> serde_json::Value {
     tokio::time::sleep(Duration::from_secs(5)).await;
     let plan = clients::ConnPlan {
         idx: 0,
+        proc: 0,
+        dst_name: "imds".into(),
         task: TaskIds { tgid: 1001, tid: 1001, uid: 0, gid: 0 },
         dst: hosts::IMDS.to_string(),
         start_ms: 0,
@@ -21,6 +23,7 @@ pub async fn run(seed: u64) -> serde_json::Value {
         gap_ms: 0,
         close: "normal".into(),
         protocol: 6,
+        inject: None,
     };
     let r = clients::run_conn(plan).await;
     tokio::time::sleep(Duration::from_secs(130)).await;
